@@ -617,7 +617,8 @@ static void do_thread_op(const Op& op, int /*idx*/) {
       if (pr <= 0 || pr >= (int)H.threads.size() || !H.threads[pr].started || pr == T->prog) { H.ops_noop++; return; }
       sched_join(g_prog_vt[pr]);
       break; }
-    case OP_barrier: sched_barrier((int)op.a, (int)op.b); break;
+    case OP_barrier: sched_barrier(op.slot, (int)op.a); break;     // slot = barrier id, a = parties
+    case OP_thread_init: expect_errors(EB_ENOMEM); mi_thread_init(); T->initialized = true; break;     // creates the thread's heap and metadata without allocating anything else
     case OP_thread_done: {
       if (T->prog == 0) { H.ops_noop++; return; }   // the main thread never ends
       thread_exit_model(T);
